@@ -160,28 +160,15 @@ impl<T> Pool<T> {
     /// Create a new empty [`Pool`] using the given [`PoolConfig`].
     #[must_use]
     pub fn from_config(config: &PoolConfig) -> Self {
+        #[cfg(deadpool_verif)]
+        use crate::verif::{AtomicIsize, AtomicUsize, Mutex, Semaphore};
         Self {
             inner: Arc::new(PoolInner {
                 config: *config,
-                #[cfg(deadpool_verif)]
-                queue: crate::verif::Mutex::new(Vec::with_capacity(config.max_size)),
-                #[cfg(deadpool_verif)]
-                size: crate::verif::AtomicUsize::new(0),
-                #[cfg(deadpool_verif)]
-                size_semaphore: crate::verif::Semaphore::new(config.max_size),
-                #[cfg(deadpool_verif)]
-                available: crate::verif::AtomicIsize::new(0),
-                #[cfg(deadpool_verif)]
-                semaphore: crate::verif::Semaphore::new(0),
-                #[cfg(not(deadpool_verif))]
                 queue: Mutex::new(Vec::with_capacity(config.max_size)),
-                #[cfg(not(deadpool_verif))]
                 size: AtomicUsize::new(0),
-                #[cfg(not(deadpool_verif))]
                 size_semaphore: Semaphore::new(config.max_size),
-                #[cfg(not(deadpool_verif))]
                 available: AtomicIsize::new(0),
-                #[cfg(not(deadpool_verif))]
                 semaphore: Semaphore::new(0),
             }),
         }
@@ -461,30 +448,17 @@ where
     /// Creates a new [`Pool`] from the given [`ExactSizeIterator`] of
     /// [`Object`]s.
     fn from(iter: I) -> Self {
+        #[cfg(deadpool_verif)]
+        use crate::verif::{AtomicIsize, AtomicUsize, Mutex, Semaphore};
         let queue = iter.into_iter().collect::<Vec<_>>();
         let len = queue.len();
         Self {
             inner: Arc::new(PoolInner {
-                #[cfg(deadpool_verif)]
-                queue: crate::verif::Mutex::new(queue),
-                #[cfg(deadpool_verif)]
-                size: crate::verif::AtomicUsize::new(len),
-                #[cfg(deadpool_verif)]
-                size_semaphore: crate::verif::Semaphore::new(0),
-                #[cfg(deadpool_verif)]
-                available: crate::verif::AtomicIsize::new(len.try_into().unwrap()),
-                #[cfg(deadpool_verif)]
-                semaphore: crate::verif::Semaphore::new(len),
-                #[cfg(not(deadpool_verif))]
                 queue: Mutex::new(queue),
                 config: PoolConfig::new(len),
-                #[cfg(not(deadpool_verif))]
                 size: AtomicUsize::new(len),
-                #[cfg(not(deadpool_verif))]
                 size_semaphore: Semaphore::new(0),
-                #[cfg(not(deadpool_verif))]
                 available: AtomicIsize::new(len.try_into().unwrap()),
-                #[cfg(not(deadpool_verif))]
                 semaphore: Semaphore::new(len),
             }),
         }
